@@ -99,19 +99,29 @@ int main(int argc, char** argv) {
     vh_init();
     int lambda = vh_arg(argc, argv, "--lambda", 80), rounds = vh_arg(argc, argv, "--rounds", 2), count = vh_arg(argc, argv, "--count", 3); unsigned seed = vh_arg(argc, argv, "--seed", 1);
     std::vector<long> tcounts = vh_list(vh_sarg(argc, argv, "--threads", "1,4,16"));
-    t_tid = 0;
+    t_tid = 0; int helper = vh_arg(argc, argv, "--helper", 0);
+    Shared S; int n = 0; VhRng r(seed);
+    logev("\"e\":\"ThreadStart\",\"tid\":0");
+    auto setup = [&]() {
     uint32_t sv[2] = {seed, 0x7eadu}; tfhe_random_generator_setSeed(sv, 2);
-    Shared S; S.p = new_default_gate_bootstrapping_parameters(lambda); S.sk = new_random_gate_bootstrapping_secret_keyset(S.p); S.nin = 4; S.in = new_gate_bootstrapping_ciphertext_array(S.nin, S.p);
-    int n = S.p->in_out_params->n; VhRng r(seed);
+    S.p = new_default_gate_bootstrapping_parameters(lambda); S.sk = new_random_gate_bootstrapping_secret_keyset(S.p); S.nin = 4; S.in = new_gate_bootstrapping_ciphertext_array(S.nin, S.p);
+    n = S.p->in_out_params->n;
     for (int i = 0; i < S.nin; i++) { bootsSymEncrypt(S.in + i, r.below(2), S.sk); S.inh.push_back(hLwe(S.in + i, n)); }
     S.keyh = 0x600dULL + seed;
-    logev("\"e\":\"ThreadStart\",\"tid\":0");
-    // sequential single-thread reference on the main thread: every (gate, inputs) combination the workers may use
+    // sequential single-thread reference: every (gate, inputs) combination the workers may use
     { const TFheGateBootstrappingCloudKeySet* bk = &S.sk->cloud; LweSample* out = new_gate_bootstrapping_ciphertext(S.p);
       for (int a = 0; a < S.nin; a++) { tfhe_bootstrap_FFT(out, bk->bkFFT, modSwitchToTorus32(1, 4), S.in + a); ev_eval("bootstrap_FFT/4", S.keyh, {S.inh[a]}, hLwe(out, n), "ref");
         for (int b = 0; b < S.nin; b++) { bootsNAND(out, S.in + a, S.in + b, bk); ev_eval("NAND", S.keyh, {S.inh[a], S.inh[b]}, hLwe(out, n), "ref"); bootsXOR(out, S.in + a, S.in + b, bk); ev_eval("XOR", S.keyh, {S.inh[a], S.inh[b]}, hLwe(out, n), "ref");
           bootsANDYN(out, S.in + a, S.in + b, bk); ev_eval("ANDYN", S.keyh, {S.inh[a], S.inh[b]}, hLwe(out, n), "ref"); } }
       delete_gate_bootstrapping_ciphertext(out); }
+    };
+    if (!helper) setup();
+    else {   // the first user of the library in this process is a helper thread (key generation, reference run) that exits before any worker starts
+        std::thread h([&]() { t_tid = g_next_tid.fetch_add(1) + 1; { char tmp[64]; snprintf(tmp, sizeof tmp, "\"e\":\"ThreadStart\",\"tid\":%d", t_tid); logev(tmp); }
+            setup(); flush_use(); { char tmp[96]; snprintf(tmp, sizeof tmp, "\"e\":\"ThreadEnd\",\"tid\":%d,\"decomp\":%ld", t_tid, t_decomp); logev(tmp); } });
+        h.join();
+        long sq = g_seq.fetch_add(1); std::lock_guard<std::mutex> l(g_mu); Rec rr; rr.seq = sq; rr.json = "\"e\":\"Joined\",\"upto\":" + std::to_string(g_next_tid.load()); g_log.push_back(rr);
+    }
     for (int round = 0; round < rounds; round++) for (long T : tcounts) {
         std::vector<std::thread> th;
         for (int i = 0; i < T; i++) th.emplace_back(worker, &S, seed * 1000 + round * 97 + i, count, (int)((i + round) % 4), T > 2 && i == 1);
